@@ -1783,7 +1783,10 @@ class SessionCache(object):
             connection = cache.connection
             assert connection is not None
             cache.connection = None
+            was_in_transaction = cache.in_transaction  # provider.drop() resets cache.in_transaction
             provider.drop(connection, cache)
+            if was_in_transaction: throw(ConnectionClosedError,
+                'Transaction cannot be continued because database connection failed')
         else: assert cache.connection is None
         return cache.connect()
     def prepare_connection_for_query_execution(cache):
